@@ -27,8 +27,9 @@ TRUSTED = [
     'generate/_flatten/__getstate__/__setstate__), directives.py (if/for/with/choose/when/otherwise/strip), '
     'filters/i18n.py (Translator.__call__ / extract SUB handling, i18n:domain/comment/ctxt) as a hand-written Lean heap '
     'machine; tied by footprint snapshots and step-by-step comparison on generated templates',
-    'the step model covers a fragment (no py:match/attrs/interpolated attributes, no i18n:msg/choose, no includes, '
-    'identity catalogue); outside it only the footprint claim and the oracle on the real code are checked',
+    'the step model covers a fragment (py:match by one element name only, no select(), no i18n:msg/choose, no inlined includes, '
+    'no <?python ?>, identity catalogue; interpolated attribute values and py:attrs are inside); outside it only the footprint '
+    'claim and the oracle on the real code are checked',
     'thread part: interleaving model at next() granularity (theorems) and line granularity (prepare race, settrace '
     'scheduler); byte-code level preemption, the GIL and atomicity of built-in container operations are assumed',
     'pickle, CPython generators, list iterators, dict ordering: exercised, not modelled',
@@ -1686,8 +1687,10 @@ def run(ctx):
         res.merge(r)
     race_corr(ctx.rng('race'), ctx.n(150, 3000), res)
     res.failures.extend(threads_systematic(res, ctx.n(40, 8)))
-    res.rule = ('generated markup templates (py: directives in attribute and element form, macros, match templates, '
-                'includes through a loader, i18n directives) x API operation sequences / next() schedules over 2-3 open '
+    res.rule = ('generated markup templates (py: directives in attribute and element form, macros, match templates '
+                'incl. multi-step / positional paths next to a fragment on which they fire, lazily evaluated nested scopes '
+                '(generator expressions, lambdas under map(), generator functions of code blocks) reading context variables, '
+                'interpolated attributes and py:attrs, includes through a loader, i18n directives) x API operation sequences / next() schedules over 2-3 open '
                 'renders / 2 threads under the line scheduler; model cases: templates of the modelled fragment x '
                 'schedules of open / next / extract / stream / pickle / register compared step by step with gdrv; '
                 'race cases: random schedules of 2-3 threads over the program points of Template.stream/_prepare_self '
